@@ -257,7 +257,8 @@ def configs(tier, seed):
         if 1 in flags and 4 in flags:
             continue
         cfgs.append(Config('plant 2-D nm=%d flags=%s' % (nm, ''.join(map(str, flags))), h_plant(flags, nm), 3000))
-    for flags, nm, nd in ([((4, 4), 1, 2), ((4, 1), 1, 2)] if q else [((4, 4), 1, 2), ((4, 1), 1, 2), ((4, 4, 4), 1, 3), ((4, 9, 4), 1, 2)]):
+    # distance mode: flag-4 points only (the flag-1 transform shifts log fluxes by -0.5 rho^2/ln10, which only a free scale can absorb)
+    for flags, nm, nd in ([((4, 4), 1, 2), ((4, 9, 4), 1, 2)] if q else [((4, 4), 1, 2), ((4, 9, 4), 1, 2), ((4, 4, 4), 1, 3), ((4, 0, 4), 1, 3)]):
         cfgs.append(Config('plant 3-D nm=%d nd=%d flags=%s' % (nm, nd, ''.join(map(str, flags))), h_plant(flags, nm, nd), 3000))
     cfgs.append(Config('chain cube->read->fit()->file->write_parameters nm=2', h_chain(2), 3000))
     if not q:
